@@ -188,3 +188,41 @@ def _file_name(spec, model):
         if r['name'] == spec['name']:
             return {'confirmed': not r['ok'], 'observed': r['detail'], 'expected': 'the file is written at, and read back from, the path that was given'}
     return {'confirmed': False, 'error': 'case not found'}
+
+
+def registry_cases(fmt):
+    """an isotherm that carries its own material, while a material of the same name with other values of the same properties is
+    registered in the session (pygaps.MATERIAL_LIST): the round trip gives back the isotherm's own material properties"""
+    import pygaps
+    import pygaps.modelling as pgm
+    from pygaps.core.baseisotherm import BaseIsotherm
+    pygaps.logger.disabled = True
+    meta = dict(adsorbate='nitrogen', temperature=77.0, pressure_mode='absolute', pressure_unit='bar', loading_basis='molar', loading_unit='mmol',
+                material_basis='mass', material_unit='g', temperature_unit='K')
+    registered = pygaps.Material('pgv_registered', density=1.5, batch='B1')
+    pygaps.MATERIAL_LIST.append(registered)
+    tmp = tempfile.mkdtemp(prefix='pgv-reg-')
+    try:
+        def own():
+            return pygaps.Material('pgv_registered', density=2.0, batch='B7')
+        isos = {'base': lambda: BaseIsotherm(material=own(), **meta),
+                'point': lambda: pygaps.PointIsotherm(pressure=[0.1, 0.2, 0.4], loading=[1.0, 1.5, 2.0], material=own(), **meta),
+                'model': lambda: pygaps.ModelIsotherm(model=pgm.get_isotherm_model('Langmuir', parameters={'K': 2.0, 'n_m': 5.0}, pressure_range=(0.0, 1.0),
+                                                                                     loading_range=(0.0, 4.0), rmse=0.0), material=own(), **meta)}
+        for kind, mk in isos.items():
+            try:
+                probs = one_case(fmt, f"registry|{kind}", mk(), tmp)
+            except Exception as exc:
+                probs = [f"{type(exc).__name__}: {exc}"[:160]]
+            yield {'name': f"{fmt}_own_material_beside_a_registered_one|{kind}", 'ok': not probs, 'detail': ' | '.join(probs)[:300]}
+    finally:
+        pygaps.MATERIAL_LIST[:] = [m for m in pygaps.MATERIAL_LIST if m is not registered]
+        shutil.rmtree(tmp, ignore_errors=True)
+
+
+@replayer('c06.registry')
+def _registry(spec, model):
+    for r in registry_cases(spec['fmt']):
+        if r['name'] == spec['name']:
+            return {'confirmed': not r['ok'], 'observed': r['detail'], 'expected': "the re-imported isotherm has the exported isotherm's own material properties"}
+    return {'confirmed': False, 'error': 'case not found'}
